@@ -220,6 +220,11 @@ class Sym:
             return a
         if op == "mul" and ca == 1:
             return b
+        # floor(x) + (x - floor(x)) = x  (exact over R; the split only matters for binary64 rounding)
+        if op == "add":
+            na, nb = cur().g.nodes[a.n], cur().g.nodes[b.n]
+            if na[0] == "floor" and nb[0] == "sub" and nb[1] == na[1] and nb[2] == a.n:
+                return Sym(na[1])
         if op == "mul" and cb is not None and ca is None:
             na = cur().g.nodes[a.n]
             if na[0] == "div":
@@ -247,6 +252,8 @@ class Sym:
     def __mul__(self, o):
         if isinstance(o, _np.ndarray):
             return NotImplemented
+        if isinstance(o, _np.timedelta64):
+            return SymDelta(self * _delta_days(o))
         return self._bin("mul", o)
 
     def __rmul__(self, o):
@@ -534,6 +541,16 @@ def _delta_days(o):
 class SymDelta:
     def __init__(self, days):
         self.days = lift(days)
+
+    def __floordiv__(self, o):
+        if isinstance(o, _np.timedelta64):
+            return un("floor", self.days / _delta_days(o))
+        return NotImplemented
+
+    def __sub__(self, o):
+        if isinstance(o, (SymDelta, _np.timedelta64)):
+            return SymDelta(self.days - _delta_days(o))
+        return NotImplemented
 
     def __truediv__(self, o):
         if isinstance(o, _np.timedelta64):
@@ -1022,7 +1039,7 @@ _F = {
     "sqrt": math.sqrt, "sin": math.sin, "cos": math.cos, "tan": math.tan,
     "atan": math.atan, "asin": math.asin, "acos": math.acos, "atan2": math.atan2,
     "deg2rad": math.radians, "rad2deg": math.degrees,
-    "pymod": lambda a, b: a % b, "fmod": math.fmod, "sign": _sign,
+    "pymod": lambda a, b: a % b, "fmod": math.fmod, "sign": _sign, "floor": math.floor,
 }
 
 
